@@ -129,7 +129,8 @@ def err_tag(e):
     if isinstance(e, ValueError):
         for pat, tag in (("> 100%", "gt100"), ("<=0%", "le0"), ("multiple lineages", "multi"),
                          ("fail-on-missing-taxonomy", "missing"), ("threshold must be between", "thr"),
-                         ("no ranks remain", "noranks"), ("No gather results loaded", "empty"), ("Is file empty", "empty"),
+                         ("no ranks remain", "noranks"), ("No gather results loaded", "empty"), ("Is file empty", "empty"), ("found in more than one CSV", "dupq"),
+                         ("missing columns needed", "cols"),
                          ("not in summarized rank", "rank"), ("not available for any matching", "rank"),
                          ("not in available ranks", "rank"), ("not present in summarized ranks", "rank"),
                          ("not available for aggregation", "rank"), ("not available for this lineage", "rankavail")):
@@ -151,6 +152,8 @@ class Case:
         self.order = None
         self.used = []
         self.done = []          # earlier queries of a multi-query run: csv lines (header + selected rows)
+        self.layout = None      # files, each a list of (query index, row index)
+        self.drop = []          # gather CSV columns removed before loading
 
     # ---- files ----
     def ranks(self):
@@ -174,9 +177,22 @@ class Case:
                 for ident, cells in self.tax:
                     w.writerow([ident] + cells + [""] * (ncol - len(cells)))
         g = os.path.join(self.tmp, "gather.csv")
-        with open(g, "w", newline="") as f:
-            f.write("".join(x + "\r\n" for x in self.current_lines()))
+        self.write_csv(g, self.current_lines())
         return t, g
+
+    def write_csv(self, path, lines):
+        """the given CSV lines, minus the columns an older / foreign gather output would not have"""
+        text = "".join(x + "\r\n" for x in lines)
+        if self.drop and lines:
+            rows = list(csv.reader(io.StringIO(text)))
+            keep = [i for i, c in enumerate(rows[0]) if c not in self.drop]
+            out = io.StringIO()
+            wr = csv.writer(out)
+            for r in rows:
+                wr.writerow([r[i] for i in keep])
+            text = out.getvalue()
+        with open(path, "w", newline="") as f:
+            f.write(text)
 
     def current_lines(self):
         lines = (self.gather_text or "").split("\r\n")
@@ -190,10 +206,16 @@ class Case:
     def write_all_files(self):
         t, _ = self.write_files()
         files = []
-        for i, lines in enumerate(self.done + [self.current_lines()]):
+        per_q = self.done + [self.current_lines()]
+        if self.layout is None:
+            contents = per_q
+        else:
+            # any delivery of the same rows: several queries interleaved in one CSV, a query split over files, repeats
+            header = next((l[0] for l in per_q if l), None)
+            contents = [([header] if header is not None else []) + [per_q[qi][1 + ri] for qi, ri in f] for f in self.layout]
+        for i, lines in enumerate(contents):
             g = os.path.join(self.tmp, f"gather{i}.csv")
-            with open(g, "w", newline="") as f:
-                f.write("".join(x + "\r\n" for x in lines))
+            self.write_csv(g, lines)
             files.append(g)
         return t, files
 
@@ -494,6 +516,24 @@ def step(case, w):
     if op == "t":
         case.tax.append((dec(a[0]), [dec(x) for x in a[1:]]))
         return "ok"
+    if op == "mfiles":
+        per_q = case.done + [case.current_lines()]
+        files = []
+        for f in a:
+            toks = [] if f == "-" else [tuple(int(x) for x in t.split(".")) for t in f.split(",")]
+            if any(len(t) != 2 for t in toks):
+                return "bad-op"
+            files.append(toks)
+        if not all(qi < len(per_q) and ri < len(per_q[qi]) - 1 for f in files for qi, ri in f):
+            return "bad-op"
+        case.layout = files
+        return "ok"
+    if op == "dropcols":
+        if len(a) != 2 or not a[0].isdigit() or a[1] not in ("0", "1"):
+            return "bad-op"
+        case.drop = ([["query_md5"], ["f_unique_weighted"], ["scaled"], ["ksize"]][(int(a[0]) - 1) % 4] if int(a[0]) > 0 else []) + \
+            (["total_weighted_hashes", "query_n_hashes", "sum_weighted_found", "n_unique_weighted_found"] if a[1] == "1" else [])
+        return "ok"
     if op == "nextq":
         if not hasattr(case, "N") or case.gather_text is None:
             return "bad-op"
@@ -507,11 +547,10 @@ def step(case, w):
             fp = io.StringIO()
             # a query none of whose matches has a lineage has nothing to write (make_full_summary refuses it)
             tax_utils.write_summary([q for q in qs if q.summarized_lineage_results], fp)
-            names = [q.query_name for q in qs]
             out = []
             for row in csv.DictReader(io.StringIO(fp.getvalue())):
                 r = list(qs[0].ranks).index(row["rank"])
-                out.append(f"{names.index(row['query_name'])}:{r}|{enc(row['lineage'])}|{canon(float(row['fraction']))}|"
+                out.append(f"{int(row['query_name'][5:]) - 1}:{r}|{enc(row['lineage'])}|{canon(float(row['fraction']))}|"
                            f"{canon(float(row['f_weighted_at_rank']))}|{row['bp_match_at_rank']}")
             return "ok " + " ".join(out) if out else "ok"
         rank = case.rank_name(qs[0], int(a[0]))
